@@ -207,10 +207,22 @@ func prReplay(c *prCase, focus string) Verdict {
 				continue
 			}
 			k := st[pi].keys[p.KeyOf[i]-1]
+			var ws, wv []string
 			for j, f := range flat {
 				if got := k.Get(f); got != p.Vals[i][j] {
 					return Verdict{OK: false, Signature: "key-get", Detail: fmt.Sprintf("projection %s result %d field %s: Get = %q, want %q", p.ID, i, f.Name, got, p.Vals[i][j])}
 				}
+				if p.Vals[i][j] != "" {
+					ws = append(ws, f.Name+":"+p.Vals[i][j])
+					wv = append(wv, p.Vals[i][j])
+				}
+			}
+			// the key's rendering lists every non-empty field value, in flattened order
+			if got, want := k.String(), strings.Join(ws, " "); got != want {
+				return Verdict{OK: false, Signature: "key-string", Detail: fmt.Sprintf("projection %s (%s) result %d: String() = %q, want %q", p.ID, prMenu[p.ID], i, got, want)}
+			}
+			if got, want := k.StringValues(), strings.Join(wv, " "); got != want {
+				return Verdict{OK: false, Signature: "key-string", Detail: fmt.Sprintf("projection %s (%s) result %d: StringValues() = %q, want %q", p.ID, prMenu[p.ID], i, got, want)}
 			}
 		}
 		keys := st[pi].keys
